@@ -179,3 +179,23 @@ func sortedKeys(m map[string]int) []string {
 	sort.Strings(ks)
 	return ks
 }
+
+// pickPolicy draws the scheduling policy of a run (search mode only; a replayed
+// tape carries the resulting choices): biased random walks with different
+// context-switch rates, or PCT with 1–3 priority change points.
+func pickPolicy(s *simrt.Sim) string {
+	t := s.Tape()
+	switch t.Weighted(3, 2, 1, 2) {
+	case 0:
+		s.SwitchNum, s.SwitchDen = 1, 4
+		return "random-1/4"
+	case 1:
+		s.SwitchNum, s.SwitchDen = 1, 2
+		return "random-1/2"
+	case 2:
+		s.SwitchNum, s.SwitchDen = 1, 20
+		return "random-1/20"
+	}
+	s.PCTDepth = 1 + t.Choose(3)
+	return "pct"
+}
